@@ -45,6 +45,16 @@ def main():
         rc0, out0 = sh("/venv/bin/python %s" % demo, cwd=wt, env={"HOME": home, "PYTHONPATH": wt})
         res["demo_unchanged_exit"] = rc0
         rca, outa = sh("git apply %s" % patch, cwd=wt)
+        if rca:
+            # written against an older HEAD: three-way merge, and keep the re-based diff
+            rca, outa = sh("git apply --3way %s" % patch, cwd=wt)
+            if rca == 0:
+                sh("git reset -q", cwd=wt)
+                _, rebased = sh("git diff", cwd=wt)
+                patch_rebased = patch + ".rebased"
+                open(patch_rebased, "w").write(rebased)
+                res["rebased"] = True
+                patch = patch_rebased
         res["apply_exit"] = rca
         if rca:
             print("patch does not apply:", outa)
@@ -70,7 +80,7 @@ def main():
             os.makedirs(d, exist_ok=True)
             shutil.copy(patch, os.path.join(d, "patch.diff"))
             shutil.copy(demo, os.path.join(d, "demo.py"))
-            md = patch[:-5] + ".md"
+            md = patch.replace(".rebased", "")[:-5] + ".md"
             if os.path.exists(md):
                 shutil.copy(md, os.path.join(d, "notes.md"))
             meta = {
